@@ -1,8 +1,87 @@
-(** C07 — Each Luau-lowering rule removes every occurrence of its construct. (interim) *)
-From DL Require Import Lib.Bytes Lua.Syntax Lua.Census.
+(** C07 — Each Luau-lowering rule removes every occurrence of its construct.
+    Only statements, closed by [exact], with their assumptions printed and pinned.
+
+    [feature i b] is the number of occurrences of construct [i] in the tree [b]
+    (Lua/Census.v, the specification: 0 compound assignment, 1 continue, 2 if-expression,
+    3 interpolated string, 4 floor division, 5 Luau-only number literal, 6 const, 7 type
+    syntax, 8 function attribute); [rule_*] are the models of the rules (Model/Lowering.v:
+    the node rewrites; Model/Visit.v: the traversal, run with fuel [w_block b]), tied to the
+    Rust rules on every run by the correspondence stream of vlib/lowering_gen.py.
+    remove_continue is not modelled (post-order rule with a loop stack): its census is
+    observed on the real rule's output only (vlib/c07.py). *)
+From DL Require Import Lib.Bytes Lua.Syntax Lua.Census Model.Visit Model.Lowering
+  Proof.LoweringCensusRules Proof.LoweringCensusAll.
 Open Scope N_scope.
 
-Theorem C07_census_of_empty : census (Block [] None) = vzero.
-Proof. reflexivity. Qed.
-Print Assumptions C07_census_of_empty.
-Check C07_census_of_empty : census (Block [] None) = vzero.
+Theorem C07_removes_compound_assign : forall b, feature 0 (rule_compound_assign b) = 0.
+Proof. exact removes_compound_assign. Qed.
+Print Assumptions C07_removes_compound_assign.
+Check C07_removes_compound_assign : forall b, feature 0 (rule_compound_assign b) = 0.
+
+Theorem C07_removes_if_expression : forall b, feature 2 (rule_if_expression b) = 0.
+Proof. exact removes_if_expression. Qed.
+Print Assumptions C07_removes_if_expression.
+Check C07_removes_if_expression : forall b, feature 2 (rule_if_expression b) = 0.
+
+(** both strategies ([false] = "string", [true] = "tostring") *)
+Theorem C07_removes_interpolated_string : forall st b, feature 3 (rule_interpolated_string st b) = 0.
+Proof. exact removes_interpolated_string. Qed.
+Print Assumptions C07_removes_interpolated_string.
+Check C07_removes_interpolated_string : forall st b, feature 3 (rule_interpolated_string st b) = 0.
+
+Theorem C07_removes_floor_division : forall b, feature 4 (rule_floor_division b) = 0.
+Proof. exact removes_floor_division. Qed.
+Print Assumptions C07_removes_floor_division.
+Check C07_removes_floor_division : forall b, feature 4 (rule_floor_division b) = 0.
+
+Theorem C07_removes_luau_number : forall b, feature 5 (rule_luau_number b) = 0.
+Proof. exact removes_luau_number. Qed.
+Print Assumptions C07_removes_luau_number.
+Check C07_removes_luau_number : forall b, feature 5 (rule_luau_number b) = 0.
+
+Theorem C07_removes_const : forall b, feature 6 (rule_const b) = 0.
+Proof. exact removes_const. Qed.
+Print Assumptions C07_removes_const.
+Check C07_removes_const : forall b, feature 6 (rule_const b) = 0.
+
+Theorem C07_removes_types : forall b, feature 7 (rule_types b) = 0.
+Proof. exact removes_types. Qed.
+Print Assumptions C07_removes_types.
+Check C07_removes_types : forall b, feature 7 (rule_types b) = 0.
+
+Theorem C07_removes_attribute : forall b, feature 8 (rule_attribute b) = 0.
+Proof. exact removes_attribute. Qed.
+Print Assumptions C07_removes_attribute.
+Check C07_removes_attribute : forall b, feature 8 (rule_attribute b) = 0.
+
+(** no modelled rule introduces any of the nine constructs: each one removes its own and
+    keeps every absent construct absent ([lowers]) *)
+Theorem C07_rules_lower : forall p, In p lowering_rules ->
+  (forall b, feature (fst p) (snd p b) = 0) /\
+  (forall j b, (j < 9)%nat -> feature j b = 0 -> feature j (snd p b) = 0).
+Proof. exact lowering_rules_lower. Qed.
+Print Assumptions C07_rules_lower.
+Check C07_rules_lower : forall p, In p lowering_rules ->
+  (forall b, feature (fst p) (snd p b) = 0) /\
+  (forall j b, (j < 9)%nat -> feature j b = 0 -> feature j (snd p b) = 0).
+
+(** all together, in any order and multiplicity: Lua 5.1 tree, provided the input has no
+    [continue] (whose rule is outside the model) *)
+Theorem C07_all_lowered : forall rs,
+  (forall p, In p rs -> In p lowering_rules) ->
+  (forall j, (j < 9)%nat -> j <> 1%nat -> In j (map fst rs)) ->
+  forall b, feature 1 b = 0 -> lua51_tree (apply_rules rs b) = true.
+Proof. exact all_lowered. Qed.
+Print Assumptions C07_all_lowered.
+Check C07_all_lowered : forall rs,
+  (forall p, In p rs -> In p lowering_rules) ->
+  (forall j, (j < 9)%nat -> j <> 1%nat -> In j (map fst rs)) ->
+  forall b, feature 1 b = 0 -> lua51_tree (apply_rules rs b) = true.
+
+(** the fuel the rules are run with is sufficient: any larger fuel gives the same tree *)
+Theorem C07_fuel_sufficient : forall H, In H lowering_hooks ->
+  forall b n, (w_block b <= n)%nat -> visit_block H n 0 b = run_rule H b.
+Proof. exact fuel_sufficient. Qed.
+Print Assumptions C07_fuel_sufficient.
+Check C07_fuel_sufficient : forall H, In H lowering_hooks ->
+  forall b n, (w_block b <= n)%nat -> visit_block H n 0 b = run_rule H b.
